@@ -50,11 +50,11 @@ def levels(tier):
         {"name": "pages-n1-all", "pools": ["a", "b", "c"], "n": 1, "alphabet": ["page", "links"], "links_batch": 1,
          "defaults": ["domain", "subdomain", "path1", "path2"],
          "anchored": [None, (1, 3, "path1"), (1, 4, "path1"), (2, 3, "path2"), (2, 1, "subdomain"), (0, 3, "domain")]},
-        {"name": "handmade-wide", "pools": ["a", "b"], "n": 2, "prelude": [["we", [[0, 3]]]], "alphabet": ["page", "we"],
+        {"name": "handmade-wide", "pools": ["a"], "n": 2, "prelude": [["we", [[0, 3]]]], "alphabet": ["page", "we"],
          "defaults": ["subdomain", "path1", "domain"], "anchored": [None, (2, 5, "path1"), (0, 3, "domain")]},
-        {"name": "L2", "pools": ["a"], "L": 2, "n": 2, "alphabet": ["page"], "defaults": ["domain", "path1"], "anchored": [None, (1, 3, "path1")]},
+        {"name": "L2", "pools": ["a"], "L": 2, "n": 2, "alphabet": ["page"], "defaults": ["domain"], "anchored": [None, (1, 3, "path1")]},
         {"name": "pages-n2-wide", "pools": ["a", "b"], "n": 2, "alphabet": ["page", "we"], "defaults": ["domain", "subdomain"],
-         "anchored": [None, (1, 4, "path1"), (2, 1, "subdomain")]},
+         "anchored": [None, (1, 4, "path1")]},
         {"name": "install-wide", "pools": ["a", "b"], "n": 2, "alphabet": ["page"], "defaults": ["domain", "subdomain"],
          "anchored": [None], "late_rule": [(1, 3, "path1"), (1, 4, "path1"), (2, 4, "path2"), (2, 1, "subdomain")]},
         {"name": "reopen-n3", "pools": ["a"], "n": 3, "prelude": [["page", 1, False]], "alphabet": ["page", "delwe", "reopen"], "defaults": ["domain"],
